@@ -31,7 +31,7 @@ ASSUMPTIONS = [
 ]
 MIN_NONTRIVIAL = {'quick': 20000, 'thorough': 200000}
 REQUIRED_MONITORS = ['contract:trs_to_dict', 'construct', 'construct:ocr_scrub',
-                     'construct:placeholder',
+                     'construct:placeholder', 'wrap:dict-edited-by-caller',
                      'construct:upper-default', 'construct:static+setter',
                      'wrap',
                      'wrap-nonstandard', 'eq-hash', 'tract-trs',
@@ -299,6 +299,27 @@ def _check_wrap(ctx, rep, pytrs, s, origin):
                     f"TRS({s!r}) -> {got!r}: {comp} is_error={is_err} "
                     f"is_undef={is_undef}, expected error="
                     f"{exp[f'{comp}_err']} undef={exp[f'{comp}_undef']}")
+                return
+        # The dict handed to a caller is the caller's: emptied / overwritten,
+        # it changes nothing for the next object of the same string.
+        if ctx.evaluations % 4 == 0 and isinstance(s, str):
+            ctx.hit('wrap:dict-edited-by-caller')
+            for src in (s, got):
+                dct = pytrs.trs_to_dict(src)
+                for key in list(dct):
+                    dct[key] = 'JUNK'
+            redo = pytrs.TRS(s)
+            bad = [k for k in ('trs', 'twp', 'rge', 'sec', 'twp_num',
+                               'rge_num', 'sec_num', 'twp_undef', 'sec_undef')
+                   if getattr(redo, k) != getattr(obj, k)
+                   or getattr(obj, k) != (got if k == 'trs' else exp[k])]
+            if bad:
+                ctx.violation(
+                    'caller-edit-changes-decomposition', case,
+                    f"after the dict returned by trs_to_dict({s!r}) was "
+                    f"overwritten by its caller, TRS({s!r}).{bad[0]} == "
+                    f"{getattr(redo, bad[0])!r} (the earlier object: "
+                    f"{getattr(obj, bad[0])!r})", dedup=bad[0])
                 return
         # Idempotence, equality, hash.
         again = pytrs.TRS(got)
